@@ -743,10 +743,14 @@ def _ports(ctx):
     ctx.require(alloc is not None, 'runtime._allocate_sockets')
     prod_envs = None
     for sub in K.walk_no_nested(alloc.node):
-        if isinstance(sub, ast.If) and isinstance(sub.test, ast.Compare) \
+        # the choice of the range: a statement or a conditional expression
+        # (a tiny range helper folded at its call site)
+        if isinstance(sub, (ast.If, ast.IfExp)) and \
+                isinstance(sub.test, ast.Compare) \
                 and len(sub.test.ops) == 1 and \
                 isinstance(sub.test.ops[0], (ast.In, ast.NotIn)):
             def mentions_prod(body):
+                body = body if isinstance(body, list) else [body]
                 return any(isinstance(n, ast.Name) and
                            n.id == 'PROD_PORT_LOW'
                            for stmt in body for n in ast.walk(stmt))
